@@ -238,6 +238,16 @@ type entry struct {
 type state struct {
 	live  *cedar.PolicySet
 	model map[cedar.PolicyID]*entry
+	held  []heldOutput
+}
+
+// heldOutput is a byte slice the set handed out earlier and the caller still holds: it is
+// a snapshot, later operations must not change it, and scribbling on it must not change
+// the set.
+type heldOutput struct {
+	what string
+	out  []byte
+	copy string
 }
 
 func newState() *state {
@@ -285,8 +295,48 @@ func authorize(pi cedar.PolicyIterator, q types.Request) authRes {
 	return authRes{d, strings.Join(rs, ","), strings.Join(es, ",")}
 }
 
+// checkHeld verifies the marshalled bytes handed out at earlier steps and takes new ones.
+func (st *state) checkHeld(step string) *core.Violation {
+	for _, ho := range st.held {
+		if string(ho.out) != ho.copy {
+			return viol("output-aliased", "after %s: the bytes returned earlier by %s changed under the caller's hands:\n  now: %q\n  was: %q", step, ho.what, clipStr(string(ho.out)), clipStr(ho.copy))
+		}
+		for i := range ho.out {
+			ho.out[i] = '#'
+		}
+	}
+	st.held = st.held[:0]
+	c := st.live.MarshalCedar()
+	st.held = append(st.held, heldOutput{"PolicySet.MarshalCedar", c, string(c)})
+	if j, err := st.live.MarshalJSON(); err == nil {
+		st.held = append(st.held, heldOutput{"PolicySet.MarshalJSON", j, string(j)})
+	}
+	for _, id := range st.sortedIDs() {
+		if p := st.live.Get(id); p != nil {
+			o := p.MarshalCedar()
+			st.held = append(st.held, heldOutput{"Policy.MarshalCedar of " + string(id), o, string(o)})
+		}
+	}
+	for _, ho := range st.held {
+		if string(ho.out) != ho.copy {
+			return viol("output-aliased", "after %s: %s was overwritten by a later marshalling call", step, ho.what)
+		}
+	}
+	return nil
+}
+
+func clipStr(s string) string {
+	if len(s) > 300 {
+		return s[:300] + "…"
+	}
+	return s
+}
+
 // check compares the live set with the model after a step.
 func (st *state) check(step string) *core.Violation {
+	if v := st.checkHeld(step); v != nil {
+		return v
+	}
 	// contents via All()
 	seen := map[cedar.PolicyID]bool{}
 	for id, p := range st.live.All() {
